@@ -325,23 +325,27 @@ def runtime_part(run, tier, seed):
                                   key=key, replay=key)
     # one-hot
     labelsets = [[0, 1, 2, 3], [-2, 0, 5, 7], ["b", "a", "d", "c"], [1.5, 0.5, 2.5, 3.5]]
-    for ls in labelsets:
-        for length in range(1, 6 if tier == "quick" else 7):
-            for vec in itertools.product(ls[:3] if length > 3 else ls, repeat=length):
-                run.rt(("onehot", str(ls[0]), length, vec))
+    todo = [(ls, length, vec, "list") for ls in labelsets for length in range(1, 6 if tier == "quick" else 7) for vec in itertools.product(ls[:3] if length > 3 else ls, repeat=length)]
+    # every integer label vector over -3..3 (any mix of signs, gaps, label sets whose maximum happens to be K-1, ...), as a list and as an integer array
+    ints = list(range(-3, 4))
+    todo += [(ints, length, vec, form) for length in range(1, 5 if tier == "quick" else 6) for vec in itertools.product(ints, repeat=length) for form in ("list", "int array")]
+    if True:
+        if True:
+            for ls, length, vec, form in todo:
+                run.rt(("onehot", str(ls[0]), length, vec, form))
                 try:
-                    enc = data.one_hot_encode(list(vec))
+                    enc = data.one_hot_encode(list(vec) if form == "list" else np.array(vec))
                 except Exception as e:
                     run.violation(MOD + "one_hot_encode.completes", "raised %s: %s on %s" % (type(e).__name__, e, vec), key={"labels": str(type(vec[0]).__name__)}, replay={"labels": list(vec)})
-                    break
+                    continue
                 uniq = sorted(set(vec))
                 exp = np.zeros((length, len(uniq)), dtype=int)
                 for i, l in enumerate(vec):
                     exp[i, uniq.index(l)] = 1
                 if enc.shape != exp.shape or not np.array_equal(enc, exp):
                     run.violation(MOD + "one_hot_encode.unit_vector_at_sorted_label_index", "labels %s encoded as %s" % (list(vec), enc.tolist()),
-                                  key={"labels": str(type(vec[0]).__name__), "length": length}, replay={"labels": [str(v) for v in vec], "actual": enc.tolist(), "expected": exp.tolist()})
-                    break
+                                  key={"labels": str(type(vec[0]).__name__), "length": length, "form": form, "has_negative": any(isinstance(v, int) and v < 0 for v in vec)},
+                                  replay={"labels": [str(v) for v in vec], "actual": enc.tolist(), "expected": exp.tolist()})
 
 
 def main(tier="quick", seed=0, procs=None, only=None):
